@@ -135,7 +135,7 @@ Qed.
 Print Assumptions C12_translated_source_agrees.
 
 (* The third tie: DiffPowermaps, Powermap.ValidatorUpdates, the comparator of SortValidators
-   (app/powermap.go), ShutterApp.makePowermap and countCheckedInKeypers (app/app.go),
+   (app/powermap.go), ShutterApp.makePowermap, countCheckedInKeypers and CurrentValidators (app/app.go),
    translated statement by statement on this run
    (Generated/PowermapFuns.v; every `range` over a map is a fold over an explicit enumeration),
    compute what the model computes - for every enumeration of the ranged maps. *)
@@ -147,10 +147,11 @@ Theorem C12_translated_powermap_agrees :
   (forall a b, gen_validator_less a b = bytes_ltb a b) /\
   (forall ids keypers, gen_make_powermap ids keypers = make_powermap ids keypers) /\
   (forall (ids : amap bytes) keypers, (Z.of_nat (List.length keypers) < 18446744073709551616)%Z ->
-                        gen_count_checked_in ids keypers = Z.of_N (count_checked_in ids keypers)).
+                        gen_count_checked_in ids keypers = Z.of_N (count_checked_in ids keypers)) /\
+  (forall ids validators cs, gen_current_validators ids validators cs = current_validators ids validators cs).
 Proof.
   split; [exact gen_diff_agrees|]. split; [exact gen_diff_ranged_ok|].
   split; [exact gen_validator_updates_agrees|]. split; [exact gen_validator_less_is_ltb|].
-  split; [exact gen_make_powermap_agrees|exact gen_count_checked_in_agrees].
+  split; [exact gen_make_powermap_agrees|]. split; [exact gen_count_checked_in_agrees|exact gen_current_validators_agrees].
 Qed.
 Print Assumptions C12_translated_powermap_agrees.
